@@ -63,6 +63,11 @@ pub fn gen_case(seed: u64, family: &str, tier: Tier) -> Case {
         }
         if r.chance(0.05) {
             q["starting_soc_percent"] = json!(*r.pick(&[-1.0, 100.5, 1000.0]));
+        } else if r.chance(0.12) {
+            // not given: the vehicle starts fully charged
+            if let Some(m) = q.as_object_mut() {
+                m.remove("starting_soc_percent");
+            }
         }
         batch.push(q);
     }
